@@ -280,7 +280,7 @@ let ses line =
   | cap :: hcap :: pi :: cmdset :: rest ->
     let ops = String.concat " " rest in
     (match cmdset with
-     | "raw" -> session raw_cmdset handler_raw (int_of_string cap) (int_of_string hcap) (int_of_string pi) ops
+     | "raw" -> session (if int_of_string hcap mod 2 = 1 then raw_cmdset_rejecting else raw_cmdset) handler_raw (int_of_string cap) (int_of_string hcap) (int_of_string pi) ops
      | d when String.length d > 1 && d.[0] = 'd' ->
        session_decl (int_of_string (String.sub d 1 (String.length d - 1))) (int_of_string cap) (int_of_string hcap) (int_of_string pi) ops
      | _ -> "nodecl")
